@@ -256,3 +256,16 @@ fn c11_take_until_secure_keeps_the_floor_of_20_when_the_scan_stops_at_once() {
     assert!(r.len() >= 20 && r.len() <= 21, "C11: at least min(20, available), whatever the scan decided");
     core::mem::forget(c);
 }
+
+// ---- recording stub for take_until_secure (for harnesses of its callers) ------------------------
+pub(crate) static mut TUS_CALLS: u32 = 0;
+pub(crate) static mut TUS_ARGS: (usize, usize) = (0, 0);
+pub(crate) static mut TUS_TAKE: usize = 0;
+pub(crate) fn stub_take_until_secure(c: &ClosestNodes, previous_dht_size_estimate: usize, average_subnets: usize) -> &[Node] {
+    unsafe {
+        TUS_CALLS += 1;
+        TUS_ARGS = (previous_dht_size_estimate, average_subnets);
+        let k = if TUS_TAKE < c.nodes.len() { TUS_TAKE } else { c.nodes.len() };
+        &c.nodes[..k]
+    }
+}
